@@ -7,7 +7,7 @@
    executes the generated functions on a concrete table (C19/PkgModel.v) refines the model for every history.
    This file contains only statements, `exact` proofs and Print Assumptions. *)
 From Coq Require Import ZArith List Bool.
-From ScV Require Import Base.CInt Gen.LogC19 Gen.PkgC19 C19.LogModel C19.LogProofs C19.LogMachine C19.PkgModel C19.PkgProofs C19.LogHistories.
+From ScV Require Import Base.CInt Gen.LogC19 Gen.PkgC19 C19.LogModel C19.LogProofs C19.LogMachine C19.PkgModel C19.PkgProofs C19.LogHistories C19.LogLaws.
 Import ListNotations.
 Local Open Scope Z_scope.
 Local Open Scope bool_scope.
@@ -530,3 +530,27 @@ Example C19_ex_threshold_sequence :
     /\ run false st (flat_map (fun t => [OSetVerbosity 0 t; OLog 0 2 5 7]) [6; 5; -1; 9; 0]) = Some (st', evs')
     /\ deliveries evs' = [(0, 3, 2, 0, 2, 5, 7); (0, 3, 2, 0, 2, 5, 7); (0, 3, 2, 0, 2, 5, 7)].
 Proof. eexists; eexists; eexists; eexists. split; [vm_compute; reflexivity|]. repeat split; vm_compute; reflexivity. Qed.
+
+(* ===== monotonicity of the filter in the priority (C19/LogLaws.v) ================================================= *)
+(* what reaches the log stream / the trace stream at priority q1 reaches it at every valid priority q2 >= q1 *)
+Theorem C19_law_deliverable_monotone : forall st package c q1 q2,
+  deliverable st package c q1 -> priority_valid q2 -> q1 <= q2 -> deliverable st package c q2.
+Proof. exact deliverable_mono. Qed.
+Print Assumptions C19_law_deliverable_monotone.
+
+Theorem C19_law_traceable_monotone : forall st c q1 q2,
+  traceable st c q1 -> priority_valid q2 -> q1 <= q2 -> traceable st c q2.
+Proof. exact traceable_mono. Qed.
+Print Assumptions C19_law_traceable_monotone.
+
+Theorem C19_law_log_part_monotone : forall st package c q1 q2,
+  passes st c q1 && (eff_threshold st package <=? q1) = true -> priority_valid q2 -> q1 <= q2 ->
+  passes st c q2 && (eff_threshold st package <=? q2) = true.
+Proof. exact log_part_mono. Qed.
+Print Assumptions C19_law_log_part_monotone.
+
+Theorem C19_law_log_delivery_monotone : forall st package c q1 q2 m2,
+  priority_valid q2 -> q1 <= q2 -> deliverable st package c q1 ->
+  In (log_delivery st package c q2 m2) (deliveries (log_st st package c q2 m2)).
+Proof. exact log_delivery_mono. Qed.
+Print Assumptions C19_law_log_delivery_monotone.
